@@ -112,7 +112,9 @@ func (b *Buffer) GetBlob() (ociregistry.Descriptor, []byte, error) {
 	if b.commitErr != nil {
 		return ociregistry.Descriptor{}, nil, b.commitErr
 	}
-	return b.desc, b.buf, nil
+	// Return only the bytes that were verified against the digest:
+	// Write may have appended more data since (or while) the blob was committed.
+	return b.desc, b.buf[:b.desc.Size], nil
 }
 
 // Write implements io.Writer by writing some data to the blob.
